@@ -210,6 +210,35 @@ def check_binary(prog: Program, rep: Report, rule: str) -> None:
             rep.ob(rule, m.fq(), f"{m.name}: result default `{norm(dflt)[:60]}` == torch.{prim}(t.default, u.default)", m.loc(call), not badd,
                    '; '.join(badd[:3]) if badd else f"{len(ins) ** 2} class pairs agree")
     rep.floor(rule.split(' ')[0] + ' commutative calls', n, 6)
+    # binary(other, <default>, torch.<op>): the default of the result is <op> applied to the two defaults
+    nb = 0
+    for m in pt.methods.values():
+        for call in [x for x in own_nodes(m.node) if isinstance(x, ast.Call) and isinstance(x.func, ast.Attribute) and x.func.attr == 'binary' and len(x.args) == 3]:
+            u_arg, dflt, opx = call.args
+            from ..util import inline_temps
+            dflt = inline_temps(m.node, dflt)       # the default may have been given a name first
+            prim = opx.attr if isinstance(opx, ast.Attribute) and norm(opx.value) == 'torch' else None
+            if prim is None:
+                continue
+            nb += 1
+            t_name, u_name = norm(call.func.value), norm(u_arg)
+            want = {'__lt__': 'lt', '__le__': 'le', '__gt__': 'gt', '__ge__': 'ge', '__eq__': 'eq'}.get(m.name, m.name)
+            rep.ob(rule, m.fq(), f"{m.name}: element-wise operation of the pattern-aware path is torch.{want}", m.loc(call), prim == want, f"binary(..., torch.{prim})")
+            badd = []
+            try:
+                for c1, c2 in itertools.product(float_in(), repeat=2):
+                    env = {t_name: SelfObj(AV([c1], 'tensor'), AV([c1], 'scalar')), u_name: SelfObj(AV([c2], 'tensor'), AV([c2], 'scalar'))}
+                    got = as_av(Interp(prog, m).eval(dflt, env), dflt)
+                    ref = apply(prim, AV([c1], 'tensor'), AV([c2], 'tensor'), mode='tensor')
+                    if got.may_raise:
+                        badd.append(f"({c1},{c2}) raises: {got.why}")
+                    elif got.cls != ref.cls:
+                        badd.append(f"({c1},{c2}) default {got} but torch.{prim} gives {ref}")
+            except Unsupported as u:
+                rep.error(f"{rule}: {m.loc(call)} default argument of binary(): {u}"); continue
+            rep.ob(rule, m.fq(), f"{m.name}: result default `{norm(dflt)[:60]}` == torch.{prim}(t.default, u.default)", m.loc(call), not badd,
+                   '; '.join(badd[:3]) if badd else f"{len(float_in()) ** 2} class pairs agree")
+    rep.floor(rule.split(' ')[0] + ' binary calls', nb, 4)
     # sub / div: constants the pattern shortcuts compare defaults with are the right identities; result default == op on defaults
     for name, prim, rid in (('sub', 'sub', 0), ('div', 'div', 1)):
         m = pt.methods.get(name)
